@@ -94,7 +94,7 @@ func init() {
 	realAll := []string{"all gmsm code involved in the scenario: a scratch copy of /repo's working tree, instrumented by /verif/rewrite (locks, once, atomics, time.Now), built for this run"}
 	props["C16"] = propCfg{
 		Level:  "exploration",
-		Quick:  tierCfg{Runs: 8000, Deadline: 80, RunMS: 90000, MinimiseS: 40},
+		Quick:  tierCfg{Runs: 10000, Deadline: 80, RunMS: 90000, MinimiseS: 40},
 		Thor:   tierCfg{Runs: 1500000, Deadline: 1500, RunMS: 90000, MinimiseS: 240},
 		Rule:   "each run is a history of 2..6 operations between one client identity with one LRU session cache (capacity 1..3) and one or two server configurations (GMSSL or TLS mode; shared or separate ticket keys; explicit or default suite lists): connections (gmtls client), ticket-key rotations keeping or dropping the old key, restarts keeping or losing the key, suite-list / ClientAuth / tickets-enabled changes, connections to another server name (eviction), clock jumps, and - through the reference client, GMSSL - genuine tickets, tickets with a substituted byte, truncated or extended tickets and tickets whose suite is not offered. A ~60-line reference model of the resumption policy watches NewSessionTicket messages on the wire joined with the key log and decides, per connection: DidResume equal on both ends; resumed => ticket byte-identical to an issued one, its key generation still configured, suite offered and configured, client-certificate policy compatible, tickets enabled (soundness); genuine ticket + unchanged configuration with explicit suite list => resumed (completeness); resumed => same version, suite, peer identity, and the wire decodes under the ORIGINAL master secret; old-key ticket => refreshed; not resumed => silent full handshake; no panic. distinct_nontrivial = distinct history strings (operation sequences with their parameters) among histories longer than one operation.",
 		Real:   realAll,
